@@ -167,6 +167,9 @@ Section TD.
   Proof. unfold has, td_pop; cbn [td_items]. rewrite alist_get_remove, keqb_refl. reflexivity. Qed.
   Lemma has_pop_other k k' (d : td K V) : k' <> k -> has k' (td_pop keqb k d) = has k' d.
   Proof. intros N. unfold has, td_pop; cbn [td_items]. rewrite alist_get_remove, keqb_neq by exact N. reflexivity. Qed.
+  (* pop leaves the pending timer (and the recently-accessed set) alone: the timer started earlier still fires at its deadline *)
+  Lemma td_pop_timer k (d : td K V) : td_timer (td_pop keqb k d) = td_timer d.
+  Proof. reflexivity. Qed.
   Lemma td_ginv_pop now last d k : td_ginv now last d -> td_ginv now (clr last k) (td_pop keqb k d).
   Proof.
     intros I. unfold td_ginv in *. change (td_timer (td_pop keqb k d)) with (td_timer d).
